@@ -19,7 +19,7 @@ CHECKS = {
          "Liveness is restated as bounded progress on the virtual clock: at a 2 h horizon after faults cease every accepted message is delivered or both ends failed visibly; a silent stall needs 20 resend timeouts without a delivery; after full acknowledgement no DATA packet may be retransmitted.",
          "unbounded eventually is out of reach: bounded restatement; schedules sampled", "3/C06", True),
  "C07": ("exploration", "runtime monitoring: hostile byte strings fed to the real decoders (exhaustive up to 3/4 bytes) and injected as packets into live GBN handshakes / data-phase states and noise handshakes; panic oracle via journalled worker death, window-bookkeeping invariant via hook",
-         "All 256 SYN window values on both handshake paths, all 256 ACK/NACK/DATA sequence values against every sender state for N<=3 (sampled for 20 and 254), mutated noise acts and record streams; act twos that authenticate (written by a responder holding the right secret through a hook) but carry hostile length fields and payload sizes, all three versions, both patterns; any panic or out-of-range bookkeeping is a violation.",
+         "All 256 SYN window values on both handshake paths, all 256 ACK/NACK/DATA sequence values against every sender state for N<=3 (sampled for 20 and 254), mutated noise acts and record streams; act twos that authenticate (written by a responder holding the right secret through a hook) but carry hostile length fields and payload sizes, all three versions, both patterns; live sessions of the whole stack (mailbox connections, GBN, NoiseGrpcConn over the relay model) in which the relay rewrites, replays or reflects one message in flight, with a prefix oracle on what the applications read; any panic or out-of-range bookkeeping is a violation.",
          "websocket envelope exercised through its decoding steps (hook, bulk) and through a real TLS websocket on loopback; authenticated act-two lengths that would allocate more than 64 MiB are left out", "3/C07", True),
  "C09": ("exploration", "runtime monitoring: wire-level window monitor (fresh packets vs. delivered ACK/NACKs) plus white-box queue samples on every transmission, virtual-time blocking probes, exhaustive (base,top,seq) sweep of the real queue arithmetic against an independent oracle",
          "The monitor can only under-estimate what is outstanding, so it never raises a false alarm; blocking semantics are exact in virtual time; small sequence spaces are enumerated completely. An API-boundary oracle (messages accepted minus packets covered by delivered ACK/NACKs never exceeds N) and transport write errors.",
